@@ -116,3 +116,26 @@ Example C02_hw_nonvacuous :
   | Err _ => false
   end = true.
 Proof. vm_compute. reflexivity. Qed.
+
+(* Part 6: the same with the wiring hypothesis replaced by three decidable side conditions on the description's
+   graph (C05_model_signals): signal names determine their links, every interface has one link in each
+   direction, links join interfaces and routers only. *)
+From FV Require Import Side WireProofs.
+Theorem C02_hw_delivered_model :
+  forall (d : desc) (g : graph) (c : compiled) (ri : rinfo) (n : netlist) (t : cni) (id : Z) (nt : net),
+    nt = Req \/ nt = Rsp ->
+    build d = Ok g -> compile d g = Ok c -> gen_routing_info sp_reference c = Ok ri -> emit c ri = Ok n ->
+    d_algo d = ID -> In t (c_nis c) -> id_num (cn_id t) = Ok id ->
+    (forall u p, is_router c u -> sp_reference g u (cn_name t) = Some p -> forall x, In x (removelast p) -> is_router c x) ->
+    names_sepb g nt = true -> single_attachb g c = true -> links_typedb g c = true ->
+    (forall r, In r (c_rts c) -> Z.of_nat (length (cr_out r)) <= 2 ^ 32) ->
+    forall s0 r0 p, In s0 (c_nis c) -> cn_name s0 <> cn_name t -> snd (attach nt s0) = r0 -> is_router c r0 ->
+      sp_reference g r0 (cn_name t) = Some p ->
+      let tr := send n nt (emit_ni d (ri_offset ri) s0) (HId id) in
+      t_out tr = Delivered (cn_name t) (HId id) /\ S (length (t_rts tr)) = length p.
+Proof.
+  intros d g c ri n t id nt Hnt Hb Hc Hri He Ha Ht Hid Htr H1 H2 H3.
+  exact (hw_send_model d g c ri n t id nt Hnt Hb Hc Hri He Ha Ht Hid Htr
+           (names_sepb_ok g nt H1) (single_attachb_ok g c H2) (links_typedb_ok g c H3)).
+Qed.
+Print Assumptions C02_hw_delivered_model.
